@@ -37,6 +37,7 @@ ASSUMPTIONS = [
 @st.composite
 def cases(draw):
     gen.VALUE_STRATEGY['current'] = gen.param_values_full
+    gen.PLAIN_OBJECTS['on'] = True   # also parameter objects of a plain class (their key text is their definition)
     case = draw(gen.cases(max_modules=3, max_tasks=3, kinds=gen.KINDS_ALL, patterns=True))
     if draw(st.integers(0, 3)) == 0:
         case = draw(gen.with_multi_config(case))
